@@ -43,6 +43,35 @@ LevelSet(M, lv) ==
 
 Keyspace(M, lv) == Cardinality(LevelSet(M, lv))
 
+(* The same number by dynamic programming, without building the strings (MC_Omen: KeyspaceDPIsKeyspace).  Layers(M, mx)[r + 1] *)
+(* maps <<context, left>> to the number of ways to append r characters after the (n-1)-gram `context` with transition      *)
+(* costs summing to exactly `left` (0..mx).  Every layer is forced into an explicit function (TLCEval), so the work is      *)
+(* |cp| * (mx + 1) per layer instead of one branch per partial string - trace validation of trained models (alphabets of    *)
+(* dozens of characters, lengths up to 21) needs this.                                                                       *)
+Contexts(M) == DOMAIN M.ip \cup { SubSeq(c, 1, M.n - 1) : c \in DOMAIN M.cp } \cup { SubSeq(c, 2, M.n) : c \in DOMAIN M.cp }
+RECURSIVE SumOver(_, _)
+(* TLC's integers are 32-bit: the sums saturate at KCap (a cell that does not contribute to the level asked for may hold more *)
+(* strings than that); a keyspace below KCap is exact, since each of its summands is at most the keyspace itself               *)
+KCap == 1000000000
+SumOver(S, f) == IF S = {} THEN 0
+                 ELSE LET x == CHOOSE x \in S : TRUE
+                          t == f[x] + SumOver(S \ {x}, f) IN IF t > KCap THEN KCap ELSE t
+RECURSIVE LayersUpTo(_, _, _, _)
+LayersUpTo(M, mx, out, R) ==
+   IF R = 0 THEN << TLCEval([kl \in Contexts(M) \X (0..mx) |-> IF kl[2] = 0 THEN 1 ELSE 0]) >>
+   ELSE LET below == LayersUpTo(M, mx, out, R - 1)
+            prev == below[Len(below)]
+            cur == TLCEval([kl \in Contexts(M) \X (0..mx) |->
+                      LET ok == { c \in out[kl[1]] : M.cp[c] <= kl[2] } IN
+                      SumOver(ok, [c \in ok |-> prev[<<SubSeq(c, 2, M.n), kl[2] - M.cp[c]>>]])])
+        IN Append(below, cur)
+Layers(M, mx) == LET out == TLCEval([k \in Contexts(M) |-> { c \in DOMAIN M.cp : SubSeq(c, 1, M.n - 1) = k }])
+                 IN LayersUpTo(M, mx, out, Len(M.ln) - (M.n - 1))
+KeyspaceFrom(M, ly, lv) ==
+   LET cells == { <<L, k>> \in (M.n..Len(M.ln)) \X DOMAIN M.ip : M.ln[L] + M.ip[k] <= lv } IN
+   SumOver(cells, [x \in cells |-> ly[x[1] - (M.n - 1) + 1][<<x[2], lv - M.ln[x[1]] - M.ip[x[2]]>>]])
+KeyspaceDP(M, lv) == KeyspaceFrom(M, Layers(M, lv), lv)
+
 (* declarative definition over an explicit alphabet, used to cross-check the pruned recursion *)
 RECURSIVE Strings(_, _)
 Strings(A, L) == IF L = 0 THEN { <<>> } ELSE { Append(s, a) : s \in Strings(A, L - 1), a \in A }
